@@ -123,9 +123,6 @@ func replHasOtherEscape(r []byte) bool {
 func knownFindings(c in) []string {
 	var kf []string
 	p := unhex(c.P)
-	if c.Fn == "gmatch" && len(p) > 0 && p[0] == '^' {
-		kf = append(kf, "C14-2")
-	}
 	if c.Fn == "gsub" && c.Repl != nil && c.Repl.Kind == "str" && replHasOtherEscape(unhex(c.Repl.Str)) {
 		kf = append(kf, "C14-5")
 	}
@@ -152,7 +149,7 @@ func corpus(w *lib.Writer, pl *pool) {
 		g("aaa", "a", str("b"), i64(0)),  // C14-1 (fixed)
 		g("aaa", "a", str("b"), i64(-1)), // C14-1, negative limit (fixed)
 		g("aaa", "a", str("b"), i64(2)),
-		f("gmatch", "aaa", "^a", nil),   // C14-2 (open)
+		f("gmatch", "aaa", "^a", nil),   // C14-2 (fixed)
 		f("gmatch", "^a^a", "^a", nil),  // C14-2
 		f("find", "-", "[%a-z]", nil),   // C14-3 (fixed)
 		f("find", "a", "[%a-z]", nil),   // C14-3
